@@ -26,7 +26,7 @@
    plain_op: no bounds operation, and `dim` only for classes whose default bounds do not
              depend on the dimension. *)
 From Coq Require Import List ZArith Bool QArith Reals.
-From GS Require Import Num Loops C14_Model C14_Proofs C14_Inst.
+From GS Require Import Num Loops Formulas Formulas_gen C14_Model C14_Proofs C14_Inst C14_Tie.
 Import ListNotations.
 Close Scope R_scope. Close Scope Q_scope.
 
@@ -200,3 +200,32 @@ Proof.
         (conj history_exists (conj plain_history_exists rejection_exists)))).
 Qed.
 Print Assumptions C14_hypotheses_satisfiable.
+
+(* 10. ties by translation: the formula parts of the model ARE the definitions translated from /repo on this
+   run (coq/gen/Formulas_gen.v, tools/py2coq.py); any number type, no side condition.
+   TPLCovModel.var_factor with len_up_rescaled = (len_low + len_scale)/rescale, len_low_rescaled = len_low/rescale: *)
+Theorem C14_tie_var_factor :
+  forall (T : Type) (O : NumOps T) (s : State),
+    var_factor O TPLGaussian s = TPL_var_factor O (len_up_rescaled O s (opt O s 1)) (opt O s 0) (len_low_rescaled O s (opt O s 1)) /\
+    var_factor O TPLExponential s = TPL_var_factor O (len_up_rescaled O s (opt O s 1)) (opt O s 0) (len_low_rescaled O s (opt O s 1)) /\
+    var_factor O TPLStable s = TPL_var_factor O (len_up_rescaled O s (opt O s 2)) (opt O s 0) (len_low_rescaled O s (opt O s 2)).
+Proof. exact @var_factor_tie. Qed.
+Print Assumptions C14_tie_var_factor.
+
+(* Gaussian.default_rescale *)
+Theorem C14_tie_default_rescale :
+  forall (T : Type) (O : NumOps T), default_rescale O Gaussian = Gaussian_default_rescale O.
+Proof. exact @default_rescale_tie. Qed.
+Print Assumptions C14_tie_default_rescale.
+
+(* calc_integral_scale of Gaussian, Exponential, Stable, Matern, Integral, Rational *)
+Theorem C14_tie_calc_integral_scale :
+  forall (T : Type) (O : NumOps T) (s : State),
+    int_scale O Gaussian s = Some (Gaussian_calc_integral_scale O (len_rescaled O s)) /\
+    int_scale O Exponential s = Some (Exponential_calc_integral_scale (len_rescaled O s)) /\
+    int_scale O Stable s = Some (Stable_calc_integral_scale O (len_rescaled O s) (opt O s 0)) /\
+    int_scale O Matern s = Some (Matern_calc_integral_scale O (len_rescaled O s) (opt O s 0)) /\
+    int_scale O Integral s = Some (Integral_calc_integral_scale O (len_rescaled O s) (opt O s 0)) /\
+    int_scale O Rational s = Some (Rational_calc_integral_scale O (len_rescaled O s) (opt O s 0)).
+Proof. exact @int_scale_tie. Qed.
+Print Assumptions C14_tie_calc_integral_scale.
